@@ -48,13 +48,13 @@ def inject(w, n, pf, data):
 
 
 # --------------------------------------------------------------------------- stack originates RTS/CTS
-def h_orig_cmdt(ex, prop, L, holds=(0,), interval=None, windows='sym', rewind=None):
+def h_orig_cmdt(ex, prop, L, holds=(0,), interval=None, windows='sym', rewind=None, other_interval=None):
     """rewind = [k, back]: before its k-th grant the reference responder discards the last `back` segments and
     re-requests them (CTS whose next-segment field goes back: retransmission request)"""
     c03, c09 = prop == 'C03', prop == 'C09'
     tag = 'c03' if c03 else 'c09'
     wa = ex.fresh_int('win_stack', 1, 255) if windows == 'sym' else windows
-    w, n, ca, rx = mk_world(ex, wa, rts_cts_interval=interval)
+    w, n, ca, rx = mk_world(ex, wa, rts_cts_interval=interval, bam_interval=other_interval)
     dp = ex.fresh_int('dp', 0, 1)
     prio = ex.fresh_int('prio', 0, 7)
     pf = ex.fresh_int('pf', 0, 239)
@@ -280,10 +280,10 @@ def h_resp_cmdt(ex, prop, L, windows='sym', session=0):
 
 
 # --------------------------------------------------------------------------- BAM
-def h_orig_bam(ex, prop, L, interval=None):
+def h_orig_bam(ex, prop, L, interval=None, other_interval=None):
     c03, c09 = prop == 'C03', prop == 'C09'
     tag = 'c03' if c03 else 'c09'
-    w, n, ca, rx = mk_world(ex, 1, bam_interval=interval)
+    w, n, ca, rx = mk_world(ex, 1, bam_interval=interval, rts_cts_interval=other_interval)
     dp = ex.fresh_int('dp', 0, 1)
     prio = ex.fresh_int('prio', 0, 7)
     pf = ex.fresh_int('pf', 240, 255)
@@ -382,6 +382,8 @@ def jobs(prop, tier):
         J('h_resp_bam', L=121, session=3)
     if prop == 'C09':
         J('h_orig_bam_busy', L=250, burst=12)
+        J('h_orig_cmdt', L=181, interval='1/20', other_interval='1/200')
+        J('h_orig_bam', L=181, interval='1/20', other_interval='1/200')
         if not q:
             for burst in (4, 30):
                 for ivl in (None, '1/20'):
